@@ -235,11 +235,28 @@ type GenOpts struct {
 	SingleHead  bool // close the history with merges until one head remains
 	Authors     int
 	Paths       int
-	MergeAddsPr int // 1/x chance that a merge commit adds lines (0 = never)
+	MergeAddsPr int  // 1/x chance that a merge commit adds lines (0 = never)
+	SameTick    bool // every commit in tick 0 (no draw for the tick)
 }
 
-// GenHist draws a random conflict-free history.
-func GenHist(rng *rand.Rand, o GenOpts) *Hist {
+// histGen holds the state shared by GenHist and GenHistShape: the edit rules of one commit.
+type histGen struct {
+	rng    *rand.Rand
+	o      GenOpts
+	h      *Hist
+	nextID int
+	tick   int
+}
+
+func newHistGen(rng *rand.Rand, o GenOpts) *histGen {
+	g := &histGen{rng: rng, o: o, h: &Hist{Seqs: map[string][]*Line{}}}
+	for i := 0; i < o.Paths; i++ {
+		g.h.Paths = append(g.h.Paths, string(rune('a'+i)))
+	}
+	return g
+}
+
+func (o *GenOpts) defaults() {
 	if o.MaxCommits < 2 {
 		o.MaxCommits = 2
 	}
@@ -249,53 +266,71 @@ func GenHist(rng *rand.Rand, o GenOpts) *Hist {
 	if o.Paths < 1 {
 		o.Paths = 3
 	}
+}
+
+// addCommit appends a commit with the given parents: tick, author, kills (non-merge commits only: every
+// alive line with probability 1/6), insertions (1-3 runs of 1-3 fresh lines; the root always 3 runs).
+func (g *histGen) addCommit(ps []int, merge bool) {
+	h, rng, o := g.h, g.rng, g.o
+	c := h.N
+	h.N++
+	h.Parents = append(h.Parents, ps)
+	h.anc = nil
+	if !o.SameTick && c > 0 && rng.Intn(3) > 0 {
+		g.tick += rng.Intn(3)
+	}
+	h.Tick = append(h.Tick, g.tick)
+	h.Author = append(h.Author, rng.Intn(o.Authors))
+	if !merge && c > 0 {
+		for _, p := range h.Paths {
+			for _, l := range h.Seqs[p] {
+				if l.Killer < 0 && l.Born != c && h.Alive(c, l) && rng.Intn(6) == 0 {
+					l.Killer = c
+				}
+			}
+		}
+	}
+	if !merge || (o.MergeAddsPr > 0 && rng.Intn(o.MergeAddsPr) == 0) {
+		nins := 1 + rng.Intn(3)
+		if c == 0 {
+			nins = 3
+		}
+		for i := 0; i < nins; i++ {
+			p := h.Paths[rng.Intn(len(h.Paths))]
+			run := 1 + rng.Intn(3)
+			pos := rng.Intn(len(h.Seqs[p]) + 1)
+			var ins []*Line
+			for j := 0; j < run; j++ {
+				ins = append(ins, &Line{g.nextID, c, -1})
+				g.nextID++
+			}
+			s := append([]*Line{}, h.Seqs[p][:pos]...)
+			s = append(s, ins...)
+			s = append(s, h.Seqs[p][pos:]...)
+			h.Seqs[p] = s
+		}
+	}
+}
+
+// GenHistShape draws a conflict-free history whose commit graph is given: parents[c] lists the parents of
+// commit c (all smaller than c).  Ticks, authors, kills and insertions follow the rules of GenHist; a
+// commit with several parents is a merge.  MaxCommits, Linear and SingleHead are ignored.
+func GenHistShape(rng *rand.Rand, parents [][]int, o GenOpts) *Hist {
+	o.defaults()
+	g := newHistGen(rng, o)
+	for _, ps := range parents {
+		g.addCommit(append([]int{}, ps...), len(ps) > 1)
+	}
+	return g.h
+}
+
+// GenHist draws a random conflict-free history.
+func GenHist(rng *rand.Rand, o GenOpts) *Hist {
+	o.defaults()
 	n := 2 + rng.Intn(o.MaxCommits-1)
-	h := &Hist{Seqs: map[string][]*Line{}}
-	for i := 0; i < o.Paths; i++ {
-		h.Paths = append(h.Paths, string(rune('a'+i)))
-	}
-	nextID := 0
-	tick := 0
-	addCommit := func(ps []int, merge bool) {
-		c := h.N
-		h.N++
-		h.Parents = append(h.Parents, ps)
-		h.anc = nil
-		if c > 0 && rng.Intn(3) > 0 {
-			tick += rng.Intn(3)
-		}
-		h.Tick = append(h.Tick, tick)
-		h.Author = append(h.Author, rng.Intn(o.Authors))
-		if !merge && c > 0 {
-			for _, p := range h.Paths {
-				for _, l := range h.Seqs[p] {
-					if l.Killer < 0 && l.Born != c && h.Alive(c, l) && rng.Intn(6) == 0 {
-						l.Killer = c
-					}
-				}
-			}
-		}
-		if !merge || (o.MergeAddsPr > 0 && rng.Intn(o.MergeAddsPr) == 0) {
-			nins := 1 + rng.Intn(3)
-			if c == 0 {
-				nins = 3
-			}
-			for i := 0; i < nins; i++ {
-				p := h.Paths[rng.Intn(len(h.Paths))]
-				run := 1 + rng.Intn(3)
-				pos := rng.Intn(len(h.Seqs[p]) + 1)
-				var ins []*Line
-				for j := 0; j < run; j++ {
-					ins = append(ins, &Line{nextID, c, -1})
-					nextID++
-				}
-				s := append([]*Line{}, h.Seqs[p][:pos]...)
-				s = append(s, ins...)
-				s = append(s, h.Seqs[p][pos:]...)
-				h.Seqs[p] = s
-			}
-		}
-	}
+	g := newHistGen(rng, o)
+	h := g.h
+	addCommit := g.addCommit
 	for c := 0; c < n; c++ {
 		var ps []int
 		if c > 0 {
